@@ -742,9 +742,7 @@ class FokkerPlanckCtor(Contract):
         ys = cx.a('ysize')
         return [('static', PS_static(cx)), ('ysize', And(ys == ny, cx.a('xsize') == nx)),
                 ('fptype', And(cx.a('fptype') >= 0, cx.a('fptype') <= 3)),
-                ('e1', cx.a('e1') > 0),
-                # zero-energy bin inside the grid, two cells away from its border (cubic stencil switches sides there)
-                ('zerobin_inside', Implies(cx.a('dt') == 4, And(zb >= 2, zb <= z3.ToReal(ys) - 2)))]
+                ('e1', cx.a('e1') > 0), ('ysize4', Implies(cx.a('dt') == 4, ys >= 4))]
 
     def assigns(self, cx):
         return [('s', 'this.*'), ('r', 'this._hinfo')]
@@ -792,7 +790,10 @@ class FokkerPlanckCtor(Contract):
             offs = sorted(ws)
             return rowis([j + o for o in offs], [ws[o] for o in offs])
         two, lo, hi = rowof('two'), rowof('lo'), rowof('hi')
-        tz = z3.ToInt(zb)     # zero-energy bin index (zb >= 0 in the domain)
+        # the stencil switches sides at the zero-energy bin; if zero energy lies outside the rows that get a stencil
+        # (strongly shifted grid) every row uses the same side
+        zc = If(zb < 2, z3.RealVal(2), If(zb > z3.ToReal(ys) - 2, z3.ToReal(ys) - 2, zb))
+        tz = z3.ToInt(zc)
         if part is not None:
             return {'zero3': zero3, 'zero4': zero4, 'two': two, 'lo': lo, 'hi': hi, 'tz': tz}[part]
         spec3 = If(And(j >= 1, j <= ys - 2), two, zero3)
